@@ -13,32 +13,33 @@ CONSTANTS MaxLen,      \* maximal chain length
           Names,       \* atom names in use
           FirstNames   \* names allowed as the first (leftmost) operand: shards the generation
 
-VARIABLES phase, chain, st, den0, steps
-vars == <<phase, chain, st, den0, steps>>
+VARIABLES phase, chain, st, den0, steps, fired
+vars == <<phase, chain, st, den0, steps, fired>>
 
 At(n) == AtomTable[n]
 Terms(c) == [i \in 1..Len(c) |-> At(c[i])]
 
-Init == /\ phase = "build" /\ chain = <<>> /\ st = ScanInit(<<>>) /\ den0 = IdentityMat(0) /\ steps = 0
+Init == /\ phase = "build" /\ chain = <<>> /\ st = ScanInit(<<>>) /\ den0 = IdentityMat(0) /\ steps = 0 /\ fired = 0
 
 Extend(n) == /\ phase = "build" /\ Len(chain) < MaxLen
              /\ IF chain = <<>> THEN n \in FirstNames
                 ELSE InS(At(chain[Len(chain)])) = OutS(At(n))
              /\ chain' = Append(chain, n)
-             /\ UNCHANGED <<phase, st, den0, steps>>
+             /\ UNCHANGED <<phase, st, den0, steps, fired>>
 
 \* CompositionOperator.reduce: operands reduced first, then the n-ary / binary rules
 Start == /\ phase = "build" /\ Len(chain) >= 1
          /\ phase' = "scan"
          /\ st' = ScanInit([i \in 1..Len(chain) |-> Reduce(At(chain[i]))])
          /\ den0' = Den(Comp(Terms(chain)))
-         /\ UNCHANGED <<chain, steps>>
+         /\ UNCHANGED <<chain, steps, fired>>
 
 Step == /\ phase = "scan" /\ ~st.done
         /\ st' = ScanStep(st) /\ steps' = steps + 1
+        /\ fired' = IF ScanStep(st).done \/ (ScanStep(st).ops = st.ops /\ ScanStep(st).idx = st.idx + 1) THEN fired ELSE fired + 1
         /\ UNCHANGED <<phase, chain, den0>>
 
-Finish == /\ phase = "scan" /\ st.done /\ phase' = "done" /\ UNCHANGED <<chain, st, den0, steps>>
+Finish == /\ phase = "scan" /\ st.done /\ phase' = "done" /\ UNCHANGED <<chain, st, den0, steps, fired>>
 
 Next == (\E n \in Names : Extend(n)) \/ Start \/ Step \/ Finish
 
@@ -60,5 +61,5 @@ Result == IF Len(st.ops) = 1 THEN st.ops[1] ELSE Comp(st.ops)
 Emit == phase = "done" =>
           PrintT(<<"CASE", ToJson([names |-> chain, term |-> Comp(Terms(chain)),
                                    den |-> den0, ins |-> InSp, outs |-> OutSp,
-                                   steps |-> steps, result |-> Result])>>)
+                                   steps |-> steps, fired |-> fired, result |-> Result])>>)
 =============================================================================
